@@ -553,6 +553,8 @@ func (c *FnCtx) assumeConstMaps(st *State) {
 			gh := g.TE.GlobalHeap(gl.Pkg.Pkg.Name(), gl.Name(), mt)
 			dom, val, ks, _ := g.TE.MapHeaps(mt)
 			gv := st.Heap(gh)
+			from := len(c.lines)
+			defer func() { c.constMapSpans = append(c.constMapSpans, constMapSpan{tok: strings.SplitN(gv, "@", 2)[0], from: from, to: len(c.lines)}) }()
 			var keys []string
 			for _, e := range entries {
 				k := fr.constVal(e.Key.(*ssa.Const)).T
@@ -584,5 +586,40 @@ func (c *FnCtx) assumeConstMaps(st *State) {
 			_ = mtt
 			c.assumed[fmt.Sprintf("contents of the constant package-level map %s.%s are read off its initialiser (it is never assigned or written through: checked by the shared-state analysis)", gl.Pkg.Pkg.Name(), gl.Name())] = true
 		}()
+	}
+}
+
+type constMapSpan struct {
+	tok      string
+	from, to int
+}
+
+// pruneConstMaps blanks the assumptions about constant maps the function's VC never mentions (their real-valued
+// contents cost solver time on goals that have nothing to do with them). Line indices are kept.
+func (c *FnCtx) pruneConstMaps() {
+	for _, sp := range c.constMapSpans {
+		used := false
+		for i, l := range c.lines {
+			if i >= sp.from && i < sp.to {
+				continue
+			}
+			if strings.Contains(l, sp.tok) {
+				used = true
+				break
+			}
+		}
+		for _, o := range c.obls {
+			if used {
+				break
+			}
+			if strings.Contains(o.Goal, sp.tok) || strings.Contains(o.Reach, sp.tok) {
+				used = true
+			}
+		}
+		if !used {
+			for i := sp.from; i < sp.to && i < len(c.lines); i++ {
+				c.lines[i] = ""
+			}
+		}
 	}
 }
